@@ -192,3 +192,21 @@ UNITS.append(Unit('out.xz.close', (X + 'close', None), contract=xz(CL_C).replace
                   ghost=[('_Bool', 'OPEN0', 'g_z_open')], replace=['out.xz.write_lzma'], stubs=['lib_lzma_code', 'lib_lzma_end', 'BaseCborOutputWriter__write'],
                   setup=XSETUP.replace('__CPROVER_assume(g_z_open && ', '__CPROVER_assume(') + '  __CPROVER_assume((obj.m_lzma.internal != 0) == g_z_open && obj.m_lzma.avail_in == 0);\n  g_lost = 0; g_z_err = 0;\n',
                   args=['&obj'], props=['C14', 'C16'], timeout=600, note='as out.gzip.close'))
+
+UNITS.append(Unit('out.xz.rotate_output', (X + 'rotate_output', None), contract=xz(ROT_C).replace(', @BINDSX', ''), prelude=P, opaque=XOPQ,
+                  ghost=[('unsigned long', 'R0', 'g_rotations')], inline=[(X + 'open', None)], replace=['out.xz.close'],
+                  stubs=['lib_lzma_code', 'lib_lzma_end', 'lib_lzma_easy_encoder', 'BaseCborOutputWriter__write', 'BaseCborOutputWriter__rotate_output'],
+                  setup=XSETUP.replace('__CPROVER_assume(g_z_open && ', '__CPROVER_assume(') + '  __CPROVER_assume((obj.m_lzma.internal != 0) == g_z_open && obj.m_lzma.avail_in == 0 && !g_rot_bad);\n  g_lost = 0; g_z_err = 0; static struct any val;\n',
+                  args=['&obj', '&val'], props=['C14', 'C13'], timeout=600, note='as out.gzip.rotate_output'))
+# destructors: the compressor is finished and released (close) before the members (the inner writer) are destroyed
+DT_C = CL_C
+for tag, pref, opq, fx, stubs, mn in (('gzip', G, OPQ, (lambda t: t), ['lib_deflate', 'lib_deflateEnd', 'BaseCborOutputWriter__write'], '_ZN4CDNS20GzipCborOutputWriterD1Ev'),
+                                       ('xz', X, XOPQ, xz, ['lib_lzma_code', 'lib_lzma_end', 'BaseCborOutputWriter__write'], '_ZN4CDNS18XzCborOutputWriterD1Ev')):
+    st = SETUP if tag == 'gzip' else XSETUP
+    fld = 'obj.m_gzip.state' if tag == 'gzip' else 'obj.m_lzma.internal'
+    avail = 'obj.m_gzip.avail_in' if tag == 'gzip' else 'obj.m_lzma.avail_in'
+    UNITS.append(Unit('out.%s.dtor' % tag, ('@' + mn, None), contract=fx(DT_C).replace(', @BINDSX', ''), prelude=P, opaque=opq,
+                      ghost=[('_Bool', 'OPEN0', 'g_z_open')], replace=['out.%s.close' % tag], stubs=stubs,
+                      setup=st.replace('__CPROVER_assume(g_z_open && ', '__CPROVER_assume(') + '  __CPROVER_assume((%s != 0) == g_z_open && %s == 0);\n  g_lost = 0; g_z_err = 0;\n' % (fld, avail),
+                      args=['&obj'], props=['C14', 'C15'], timeout=600,
+                      note='destruction finishes and releases the compressed stream (close) and never throws; the inner writer is a member and is destroyed afterwards (C++ order of destruction, not modelled)'))
